@@ -18,6 +18,7 @@ package procbuilder
 //@   ensures scalars: result.Rsize == mach.Rsize && result.WordSize == mach.WordSize && result.R == mach.R && result.N == mach.N && result.M == mach.M &&
 //@             result.L == mach.L && result.O == mach.O && result.Shared_constraints == mach.Shared_constraints && result.Threaded == mach.Threaded
 //@   ensures program: sameStrings(result.Slocs, mach.Slocs) && sameStrings(result.Vars, mach.Vars)
+//@   ensures arrays: fresh(result.Modes) && fresh(result.Slocs) && fresh(result.Vars) && fresh(result.Op)
 //@   ensures opnames: len(result.Op) == len(mach.Op) && (forall i int :: 0 <= i && i < len(mach.Op) ==> result.Op[i] == mach.Op[i].Op_get_name())
 //@   covers result Machine_json
 //@   assigns nothing
